@@ -40,11 +40,14 @@ def wrap_isolation(run):
     base = {"a": 1, "l": [1, {"m": [2, {"n": {"o": [3]}}]}], "d": {"e": {"f": {"g": "h"}}}, "s": "str",
             "t": (1, [2, {"x": 3}], ({"y": [4]},), "z"), "lt": [(5, [6])]}      # tuples are a supported (JSON-serializable) payload type
     n = 0
-    for p in paths_of(base):
+    top_tuple = (1, [2, {"x": [3]}], {"d": {"e": [4]}}, ({"y": [5]},))          # the payload itself a tuple: immutable only at its top level
+    top_list = [1, [2, {"x": [3]}], ({"y": [5]},)]
+    for base in (base, top_tuple, top_list):
+      for p in paths_of(base):
         for direction in ("original->wrapped", "wrapped->original"):
             orig = copy.deepcopy(base)
             before = twin_canon(orig)
-            env = signing.wrap_as_signable(orig if n % 3 else orig["t"] if p and p[0] == "t" and False else orig)
+            env = signing.wrap_as_signable(orig)
             n += 1
             if twin_canon(orig) != before:
                 run.violation("wrap_as_signable modified its argument", {"kind": "wrap", "path": repr(p)})
@@ -53,7 +56,7 @@ def wrap_isolation(run):
             set_at(src, p, "MUTATED")
             if twin_canon(dst) != dst_before:
                 run.violation(f"after wrap_as_signable a change of the {direction.split('->')[0]} at depth {len(p)} shows through on the other side",
-                              {"kind": "wrap", "path": repr(p), "direction": direction})
+                              {"kind": "wrap", "path": repr(p), "direction": direction, "payload_type": type(base).__name__})
     run.evaluations += n
     run.extra["wrap_isolation_cases"] = n
 
@@ -200,8 +203,8 @@ def identity_independence(run, quick):
     n = 0
     for mod, cfg, eng in (("Root", "Root_emit_quick.cfg", root_engine), ("Delegation", "Delegation_emit_quick.cfg", delegation_engine)):
         rx = run.tlc(mod, cfg, raw_cases=True, expect_cases=True, timeout=3000)
-        for batch in verify_engine.batches(rx.case_file, every=8 if quick else 2):
-            for line in batch[::3]:
+        for batch in verify_engine.batches(rx.case_file, every=16 if quick else 2):
+            for line in batch[::4]:
                 case = decode_case_line(line)
                 r = verify_engine._rng(run.seed + 77, line)
                 args = eng.concretise(case, r, run.seed)
@@ -300,6 +303,15 @@ def check(run):
     scale_purity(run)
     schema_purity(run, quick)
     identity_independence(run, quick)
+    # Alias.tla: every sharing pattern of the two root rules' key lists x thresholds x signer sets, verdict = function of the values
+    from .. import alias_engine
+    run.tlc("Alias", "Alias.cfg", timeout=600)
+    run.mutant("Alias", "Alias_mut_same_list_skip.cfg", expect="ValueDetermined", timeout=300)
+    ra = run.tlc("Alias", "Alias.cfg", expect_cases=True, timeout=600)
+    for b in alias_engine.replay(run, ra.cases if not quick else ra.cases[::3], persist=False):
+        c = b["case"]
+        run.violation(f"verify_root on a root pair whose key lists are {'the same object' if c['shared'] else 'separate objects'}: {b['observed']} where the values "
+                      f"determine {b['expected']}", {"kind": "alias", **b})
     # configurations: the same histories, sequentially, in fresh interpreters
     sample = behaviours[: (60 if quick else 600)]
     for cfg in procs.CONFIGS:
